@@ -476,31 +476,31 @@ impl SymbolTable<Symbol> {
         add(
             cpu_flags_nx,
             "zero",
-            Some(&((flags & 2) as i64)),
+            Some(&((flags & 2 != 0) as i64)),
             SymbolType::Constant,
         );
         add(
             cpu_flags_nx,
             "interrupt_disable",
-            Some(&((flags & 4) as i64)),
+            Some(&((flags & 4 != 0) as i64)),
             SymbolType::Constant,
         );
         add(
             cpu_flags_nx,
             "decimal",
-            Some(&((flags & 8) as i64)),
+            Some(&((flags & 8 != 0) as i64)),
             SymbolType::Constant,
         );
         add(
             cpu_flags_nx,
             "overflow",
-            Some(&((flags & 64) as i64)),
+            Some(&((flags & 64 != 0) as i64)),
             SymbolType::Constant,
         );
         add(
             cpu_flags_nx,
             "negative",
-            Some(&((flags & 128) as i64)),
+            Some(&((flags & 128 != 0) as i64)),
             SymbolType::Constant,
         );
     }
